@@ -374,10 +374,18 @@ def check_dependencies(graph, suite_path, phase):
 # --------------------------------------------------------------------------------------------
 
 def update_expectation(suite_path, vm, vm_restr, from_state, to_state, remove_set="leaves"):
-    """(tests on the path from from_state to to_state inclusive, states of ``vm`` derived from to_state)."""
+    """Per vm variant: tests on the path from from_state to to_state inclusive, states of ``vm`` derived from to_state."""
     variants = apply_restriction(vm_restr, vm_variants(suite_path).get(vm, []))
-    if len(variants) != 1:
+    if not variants:
         return None
+    per_variant = [update_expectation_for_variant(suite_path, vm, v, from_state, to_state, remove_set) for v in variants]
+    if any(e.get("invalid") for e in per_variant):
+        return {"invalid": True}
+    return {"invalid": False, "variants": per_variant}
+
+
+def update_expectation_for_variant(suite_path, vm, variant, from_state, to_state, remove_set="leaves"):
+    variants = [variant]
     token = variant_token(variants[0])
     res = Resolver(suite_path)
 
